@@ -21,8 +21,8 @@ theorem applyOp_agree (a b : St) (op : Op) (h : MapsAgree a b) :
   have hp := h p
   cases op <;> simp [applyOp, get_set, hp.1, hp.2]
 
-theorem srvStep_agree (v : Srv) (s : St) (op : Op) (h : MapsAgree v.st s) :
-    MapsAgree (srvStep v op).st (applyOp s op) := by
+theorem srvStep_agree (tracked : Bool) (v : Srv) (s : St) (op : Op) (h : MapsAgree v.st s) :
+    MapsAgree (srvStep tracked v op).st (applyOp s op) := by
   cases op with
   | didOpen q t => exact applyOp_agree _ _ _ h
   | didChange q t => exact applyOp_agree _ _ _ h
@@ -48,23 +48,23 @@ theorem srvStep_agree (v : Srv) (s : St) (op : Op) (h : MapsAgree v.st s) :
     · exact h
     · exact h
 
-theorem srvRun_agree (hist : List Op) (v : Srv) (s : St) (h : MapsAgree v.st s) :
-    MapsAgree (srvRun v hist).st (runOps s hist) := by
+theorem srvRun_agree (tracked : Bool) (hist : List Op) (v : Srv) (s : St)
+    (h : MapsAgree v.st s) : MapsAgree (srvRun tracked v hist).st (runOps s hist) := by
   induction hist generalizing v s with
   | nil => exact h
   | cons op rest ih =>
     simp only [srvRun, runOps, List.foldl_cons]
-    exact ih (srvStep v op) (applyOp s op) (srvStep_agree v s op h)
+    exact ih (srvStep tracked v op) (applyOp s op) (srvStep_agree tracked v s op h)
 
-theorem srv_maps (d0 : FMap) (hist : List Op) (p : Path) :
-    (srvRun (start d0) hist).st.disk.get p = (runOps ⟨d0, []⟩ hist).disk.get p ∧
-    (srvRun (start d0) hist).st.bufs.get p = (runOps ⟨d0, []⟩ hist).bufs.get p :=
-  srvRun_agree hist (start d0) ⟨d0, []⟩ (fun _ => ⟨rfl, rfl⟩) p
+theorem srv_maps (tracked : Bool) (d0 : FMap) (hist : List Op) (p : Path) :
+    (srvRun tracked (start d0) hist).st.disk.get p = (runOps ⟨d0, []⟩ hist).disk.get p ∧
+    (srvRun tracked (start d0) hist).st.bufs.get p = (runOps ⟨d0, []⟩ hist).bufs.get p :=
+  srvRun_agree tracked hist (start d0) ⟨d0, []⟩ (fun _ => ⟨rfl, rfl⟩) p
 
-theorem srv_effective (d0 : FMap) (hist : List Op) (p : Path) :
-    effective (srvRun (start d0) hist).st p =
+theorem srv_effective (tracked : Bool) (d0 : FMap) (hist : List Op) (p : Path) :
+    effective (srvRun tracked (start d0) hist).st p =
       effective (fresh (runOps ⟨d0, []⟩ hist).disk (runOps ⟨d0, []⟩ hist).bufs) p := by
-  have h := srv_maps d0 hist p
+  have h := srv_maps tracked d0 hist p
   simp only [effective, fresh, h.1, h.2]
 
 /-- Every request comes after the first buffer notification. -/
@@ -76,27 +76,33 @@ def noCheckBeforeBufferOp : List Op → Bool
   | .didClose _ :: _ => true
   | _ :: rest => noCheckBeforeBufferOp rest
 
-theorem stale_nil_of_counter (hist : List Op) (v : Srv) (hs : v.stale = [])
-    (hc : v.openCounter = true) : (srvRun v hist).stale = [] := by
+/-- once the `OpenFileMap` counter exists (or absent singletons are tracked), a request memoises
+nothing without a dependency on it -/
+theorem stale_nil_of_counter (tracked : Bool) (hist : List Op) (v : Srv) (hs : v.stale = [])
+    (hc : (v.openCounter || tracked) = true) : (srvRun tracked v hist).stale = [] := by
   induction hist generalizing v with
   | nil => exact hs
   | cons op rest ih =>
     simp only [srvRun, List.foldl_cons]
     apply ih
-    · cases op <;> simp only [srvStep] <;> (try split) <;> simp [hs]
-    · cases op <;> simp only [srvStep] <;> (try split) <;> simp [hc]
+    · cases op <;> simp only [srvStep] <;> (try split) <;> simp [hs] <;> simp_all
+    · cases op <;> simp only [srvStep] <;> (try split) <;> simp_all
 
-theorem stale_nil_of_no_early_check (hist : List Op) (v : Srv) (hs : v.stale = [])
-    (h : noCheckBeforeBufferOp hist = true) : (srvRun v hist).stale = [] := by
+theorem stale_nil_of_no_early_check (tracked : Bool) (hist : List Op) (v : Srv)
+    (hs : v.stale = []) (h : noCheckBeforeBufferOp hist = true) :
+    (srvRun tracked v hist).stale = [] := by
   induction hist generalizing v with
   | nil => exact hs
   | cons op rest ih =>
     simp only [srvRun, List.foldl_cons]
     cases op with
     | check => simp [noCheckBeforeBufferOp] at h
-    | didOpen q t => exact stale_nil_of_counter rest _ (by simp [srvStep, hs]) (by simp [srvStep])
-    | didChange q t => exact stale_nil_of_counter rest _ (by simp [srvStep, hs]) (by simp [srvStep])
-    | didClose q => exact stale_nil_of_counter rest _ (by simp [srvStep, hs]) (by simp [srvStep])
+    | didOpen q t =>
+      exact stale_nil_of_counter tracked rest _ (by simp [srvStep, hs]) (by simp [srvStep])
+    | didChange q t =>
+      exact stale_nil_of_counter tracked rest _ (by simp [srvStep, hs]) (by simp [srvStep])
+    | didClose q =>
+      exact stale_nil_of_counter tracked rest _ (by simp [srvStep, hs]) (by simp [srvStep])
     | diskWrite q t =>
       apply ih
       · simp only [srvStep]; split <;> simp [hs]
@@ -110,13 +116,21 @@ theorem observed_of_stale_nil (v : Srv) (hs : v.stale = []) (p : Path) :
     observed v p = effective v.st p := by
   simp [observed, effective, hs]
 
-theorem srv_observed_of_no_early_check (d0 : FMap) (hist : List Op)
+theorem srv_observed_of_no_early_check (tracked : Bool) (d0 : FMap) (hist : List Op)
     (h : noCheckBeforeBufferOp hist = true) :
-    ∀ p, observed (srvRun (start d0) hist) p =
+    ∀ p, observed (srvRun tracked (start d0) hist) p =
       effective (fresh (runOps ⟨d0, []⟩ hist).disk (runOps ⟨d0, []⟩ hist).bufs) p := by
   intro p
-  rw [observed_of_stale_nil _ (stale_nil_of_no_early_check hist (start d0) rfl h) p]
-  exact srv_effective d0 hist p
+  rw [observed_of_stale_nil _ (stale_nil_of_no_early_check tracked hist (start d0) rfl h) p]
+  exact srv_effective tracked d0 hist p
+
+/-- with tracking, `stale` stays empty for every history, hence observed = effective -/
+theorem srv_observed_of_tracked (d0 : FMap) (hist : List Op) :
+    ∀ p, observed (srvRun true (start d0) hist) p =
+      effective (fresh (runOps ⟨d0, []⟩ hist).disk (runOps ⟨d0, []⟩ hist).bufs) p := by
+  intro p
+  rw [observed_of_stale_nil _ (stale_nil_of_counter true hist (start d0) rfl (by simp)) p]
+  exact srv_effective true d0 hist p
 
 theorem stale_characterised (v : Srv) (p : Path) (h : observed v p ≠ effective v.st p) :
     v.stale.contains p = true ∧ (v.st.bufs.get p).isSome = true ∧
@@ -125,11 +139,13 @@ theorem stale_characterised (v : Srv) (p : Path) (h : observed v p ≠ effective
   cases hd : v.st.disk.get p <;> cases hb : v.st.bufs.get p <;>
     cases hc : v.stale.contains p <;> simp_all
 
-theorem srv_stale_characterised (d0 : FMap) (hist : List Op) (p : Path)
-    (h : observed (srvRun (start d0) hist) p ≠ effective (srvRun (start d0) hist).st p) :
-    (srvRun (start d0) hist).stale.contains p = true ∧
-      ((srvRun (start d0) hist).st.bufs.get p).isSome = true ∧
-      observed (srvRun (start d0) hist) p = (srvRun (start d0) hist).st.disk.get p :=
+theorem srv_stale_characterised (tracked : Bool) (d0 : FMap) (hist : List Op) (p : Path)
+    (h : observed (srvRun tracked (start d0) hist) p ≠
+      effective (srvRun tracked (start d0) hist).st p) :
+    (srvRun tracked (start d0) hist).stale.contains p = true ∧
+      ((srvRun tracked (start d0) hist).st.bufs.get p).isSome = true ∧
+      observed (srvRun tracked (start d0) hist) p =
+        (srvRun tracked (start d0) hist).st.disk.get p :=
   stale_characterised _ p h
 
 end IsoVerif.Lemmas.LspState
